@@ -423,7 +423,8 @@ def _explore(rep, tier, seed, proxy):
             params = rparams(rnd, k)
             p, mode = grid(rnd, k)
             l = exact_curve(k, params, p)
-            for what, cv in (conv if big else rnd.sample(conv[:-1], 2) + [conv[-1]]):
+            mi = WELL_POSED.index(k)
+            for what, cv in (conv if big else [conv[(2 * mi) % 7], conv[(2 * mi + 1) % 7], conv[-1]]):
                 if k in ('DR', 'DA') and what == 'pressure':
                     continue          # ln(p/p0) potential models: the family is not closed under a change of pressure scale (mathematics, not code)
                 if mode == 'relative' and what == 'pressure':
@@ -441,6 +442,7 @@ def _explore(rep, tier, seed, proxy):
                     continue
                 oc2, m2 = call(pygaps.ModelIsotherm.from_pointisotherm, piso2, model=k)
                 note('units-%s/%s/%s' % (what, k, oc2))
+                replay['max_loading_in_new_units'] = float(np.max(np.abs(np.array(piso2.loading(), dtype=float))))
                 back = dict(pressure_mode=mode, pressure_unit='bar' if mode == 'absolute' else None, loading_basis='molar', loading_unit='mmol',
                             material_basis='mass', material_unit='g')
                 if oc2 == 'CalculationError':
@@ -508,6 +510,9 @@ def exact_like_guess(m0, p, l):
 def classify(kind, replay, model=None):
     if kind == 'units-temperature' and model in ('DR', 'DA'):
         return 'C12:dr-da-temperature-unit'
+    if kind in ('units-loading', 'units-material') and replay.get('max_loading_in_new_units', 1.0) < 0.05:
+        # loadings expressed in a unit that makes them numerically small (mmol -> mol): least_squares stops on its ABSOLUTE gradient tolerance
+        return 'C12:small-loading-magnitude-early-termination'
     return 'C12:unclassified:%s:%s' % (kind, model or replay.get('kind'))
 
 
